@@ -3,13 +3,15 @@ Model/Trees.v with dinosaur.pytree_utils / coordinate_systems (spectral
 down/up-sampling) and the property's clauses evaluated on the implementation
 (nested dictionaries, pytree packing, spectral resampling, attrs/xarray)."""
 import json
+import struct
+import types
 import numpy as np
 from fractions import Fraction
 from harness import util
 
 THEOREMS = ['C19_unflatten_flatten', 'C19_unflatten_flatten_paths', 'C19_dict_eq_is_pathwise',
-            'C19_unpack_pack', 'C19_unstack_stack', 'C19_concat_split', 'C19_empty_pytree',
-            'C19_down_up_identity', 'C19_upsample_coef', 'C19_hyps_satisfiable']
+            'C19_flatten_unflatten', 'C19_replace_structure', 'C19_unpack_pack', 'C19_unstack_stack', 'C19_concat_split', 'C19_empty_pytree',
+            'C19_down_up_identity', 'C19_upsample_coef', 'C19_hyps_satisfiable', 'C19_regressions']
 LEVEL = 'proof'
 LEVEL_TEXT = ('machine-checked theorems (Coq) for every nested dictionary (any depth/width, any key names without the '
               'separator incl. the empty string, any number of empty sub-dictionaries): flatten_dict accepts and '
@@ -546,7 +548,7 @@ def SP():
 def gen_spectral(ctx):
     rng = ctx.rng
     quick = ctx.tier == 'quick'
-    pairs = [(3, 4, 5, 6), (4, 5, 4, 5), (2, 3, 6, 7), (5, 6, 3, 4), (3, 4, 5, 4), (3, 5, 4, 8), (4, 6, 3, 7), (1, 2, 2, 3)]
+    pairs = [(3, 4, 5, 6), (4, 5, 4, 5), (2, 3, 6, 7), (5, 6, 3, 4), (3, 6, 5, 5), (3, 5, 4, 8), (4, 6, 3, 7), (1, 2, 2, 3)]
     if not quick:
         pairs += [(int(a), int(a + rng.integers(0, 3)), int(b), int(b + rng.integers(0, 3)))
                   for a, b in rng.integers(1, 9, size=(24, 2))]
@@ -630,7 +632,7 @@ def r_spectral(ctx, a):
     # table obligation: the same index means the same (m, l) on both grids (inside the coarse mask)
     mcs, lcs = gc.modal_axes; mfs, lfs = gf.modal_axes
     mask = np.asarray(gc.mask)
-    if sf_[0] >= sc_[0] and sf_[1] >= sc_[1]:
+    if mf >= mc and lf >= lc:
         rowsel = mask.any(axis=1); colsel = mask.any(axis=0)
         ok = (np.array_equal(np.asarray(mfs)[:sc_[0]][rowsel], np.asarray(mcs)[rowsel]) and
               np.array_equal(np.asarray(lfs)[:sc_[1]][colsel], np.asarray(lcs)[colsel]) and
@@ -653,11 +655,1016 @@ def r_spectral(ctx, a):
         scale = float(np.abs(x).sum() * np.abs(pc).max() * np.abs(fc).max()) + 1e-300
         ctx.oracle_close('up-sampled coefficients synthesise the same function (same nodes)', nf, nc, scale=scale)
 
+
+# ===========================================================================
+# attrs / xarray round trips: oracles on the implementation only
+# ===========================================================================
+C19_ATTRS = 'coordinate system serialised to attrs is reconstructed with the same discretisation'
+C19_XR = 'model states written to a labelled dataset get the right dimension names and read back bit-identical'
+
+# documented dimension names (deliberately literal, not imported from xarray_utils.XR_*)
+_NODAL = ('lon', 'lat')
+_MODAL = ('longitudinal_mode', 'total_wavenumber')
+_PE_KEYS = ('vorticity', 'divergence', 'temperature_variation', 'log_surface_pressure')
+_SW_KEYS = ('vorticity', 'divergence', 'potential')
+_RESERVED = set(_PE_KEYS) | set(_SW_KEYS) | set(_NODAL) | set(_MODAL) | {
+    'time', 'sample', 'level', 'surface', 'realization', 'sim_time', 'tracers', 'diagnostics'}
+
+_p4 = None
+
+
+def _P4():
+    """Lazy import of jax / dinosaur (first use only)."""
+    global _p4
+    if _p4 is None:
+        jax = util.setup_jax()
+        import xarray
+        from dinosaur import (xarray_utils as xu, coordinate_systems as cs, spherical_harmonic as sh,
+                              sigma_coordinates as sc, layer_coordinates as lc, vertical_interpolation as vi)
+        _p4 = types.SimpleNamespace(jax=jax, xarray=xarray, xu=xu, cs=cs, sh=sh, sc=sc, lc=lc, vi=vi)
+    return _p4
+
+
+# ---------------------------------------------------------------------------
+# building coordinate systems from JSON specs
+# ---------------------------------------------------------------------------
+def _p4_grid(m, g):
+    kw = dict(g['kw'])
+    impl = g.get('impl', 'RealSphericalHarmonics')
+    if impl != 'RealSphericalHarmonics':
+        kw['spherical_harmonics_impl'] = getattr(m.sh, impl)
+    if g['ctor'] == 'raw':
+        return m.sh.Grid(**kw)
+    return getattr(m.sh.Grid, g['ctor'])(**kw)
+
+
+def _p4_vert(m, v):
+    t = v['type']
+    if t == 'sigma':
+        return m.sc.SigmaCoordinates(np.asarray(v['boundaries'], dtype=np.float64))
+    if t == 'sigma_eq':
+        return m.sc.SigmaCoordinates.equidistant(int(v['layers']))
+    if t == 'layer':
+        return m.lc.LayerCoordinates(int(v['layers']))
+    if t == 'pressure':
+        return m.vi.PressureCoordinates(np.asarray(v['centers'], dtype=np.float64))
+    if t == 'hybrid':
+        return m.vi.HybridCoordinates(np.asarray(v['a'], dtype=np.float64), np.asarray(v['b'], dtype=np.float64))
+    if t == 'none':
+        return None
+    raise ValueError(t)
+
+
+def _p4_mesh(m):
+    return m.jax.sharding.Mesh(np.array(m.jax.devices()[:1]).reshape(1, 1, 1), ('z', 'x', 'y'))
+
+
+def _p4_coords(m, a):
+    grid = _p4_grid(m, a['grid'])
+    vert = _p4_vert(m, a['vert'])
+    mesh = _p4_mesh(m) if a['grid'].get('mesh') else None
+    return m.cs.CoordinateSystem(grid, vert, spmd_mesh=mesh), mesh
+
+
+def _p4_try(ctx, clause, what, fn, **info):
+    """Runs fn(); an exception on a valid input is an oracle failure of `clause` (returns (False, None))."""
+    try:
+        return True, fn()
+    except Exception as e:
+        ctx.oracle(clause, False, dict(info, check=what + ' raised on a valid input', error=repr(e)[:300]))
+        return False, None
+
+
+def _bits(x):
+    return struct.pack('<d', float(x))
+
+
+def _same_bits(a, b):
+    """Bit identity of two arrays (shape, dtype, bytes; -0.0 and NaN are distinguished/kept)."""
+    a = np.asarray(a); b = np.asarray(b)
+    return a.shape == b.shape and a.dtype == b.dtype and a.tobytes() == b.tobytes()
+
+
+def _f8_values_equal(a, b):
+    """Same float64 values bit for bit, ignoring byte order of the container (netcdf gives '>f8')."""
+    a = np.asarray(a); b = np.asarray(b)
+    if a.shape != b.shape:
+        return False
+    for x in (a, b):
+        if x.dtype.kind == 'f' and x.dtype.itemsize != 8:
+            return False
+    if a.dtype.kind != b.dtype.kind:
+        return False
+    if a.dtype.kind == 'f':
+        return a.astype('<f8').tobytes() == b.astype('<f8').tobytes()
+    return bool(np.array_equal(a, b))
+
+
+def _expected_lon_deg(n, offset):
+    return offset * 180 / np.pi + 360.0 * np.arange(n) / n
+
+
+def _expected_lat_deg(n, spacing):
+    if spacing == 'gauss':
+        x, _ = np.polynomial.legendre.leggauss(n)
+        return np.arcsin(x) * 180 / np.pi
+    if spacing == 'equiangular':
+        return -90 + 180.0 * (np.arange(n) + 0.5) / n
+    return np.linspace(-90.0, 90.0, n)
+
+
+def _expected_modal_axes(impl, lw, tw):
+    m_pos = np.arange(1, lw)
+    pm = np.stack([m_pos, -m_pos], axis=1).ravel()
+    if impl == 'RealSphericalHarmonics':
+        return np.concatenate([[0], pm]), np.arange(tw)
+    return np.concatenate([[0, 0], pm]), np.arange(tw)      # Fast layouts, base multiple 1, trivial mesh
+
+
+# ---------------------------------------------------------------------------
+# clause 1: asdict -> attrs -> coordinate_system_from_attrs
+# ---------------------------------------------------------------------------
+def _p4_compare_cs(ctx, m, cs, cs2, via, same_impl, full_eq):
+    """All discretisation fields of cs2 (reconstructed) against cs (original)."""
+    def chk(field, ok, got=None, want=None):
+        ctx.oracle(C19_ATTRS, bool(ok), None if ok else {'via': via, 'field': field, 'got': got, 'want': want})
+    h, h2 = cs.horizontal, cs2.horizontal
+    chk('horizontal type', type(h2).__name__ == type(h).__name__, type(h2).__name__, type(h).__name__)
+    for f in ('longitude_wavenumbers', 'total_wavenumbers', 'longitude_nodes', 'latitude_nodes'):
+        chk(f, int(getattr(h2, f)) == int(getattr(h, f)), getattr(h2, f), getattr(h, f))
+    chk('latitude_spacing', str(h2.latitude_spacing) == str(h.latitude_spacing), h2.latitude_spacing, h.latitude_spacing)
+    for f in ('longitude_offset', 'radius'):
+        chk(f, _bits(getattr(h2, f)) == _bits(getattr(h, f)), float(getattr(h2, f)), float(getattr(h, f)))
+    chk('nodal_shape', tuple(int(s) for s in h2.nodal_shape) == tuple(int(s) for s in h.nodal_shape),
+        list(h2.nodal_shape), list(h.nodal_shape))
+    for i, nm in enumerate(('nodal_axes[lon]', 'nodal_axes[sin_lat]')):
+        chk(nm, _same_bits(h2.nodal_axes[i], h.nodal_axes[i]), h2.nodal_axes[i], h.nodal_axes[i])
+    if same_impl:
+        chk('modal_shape', tuple(int(s) for s in h2.modal_shape) == tuple(int(s) for s in h.modal_shape),
+            list(h2.modal_shape), list(h.modal_shape))
+        for i, nm in enumerate(('modal_axes[m]', 'modal_axes[l]')):
+            chk(nm, np.array_equal(h2.modal_axes[i], h.modal_axes[i]), h2.modal_axes[i], h.modal_axes[i])
+    else:
+        # documented behaviour: reconstructed with the default (RealSphericalHarmonics) layout
+        lw, tw = int(h.longitude_wavenumbers), int(h.total_wavenumbers)
+        chk('modal_shape(default impl)', tuple(int(s) for s in h2.modal_shape) == (2 * lw - 1, tw),
+            list(h2.modal_shape), [2 * lw - 1, tw])
+    v, v2 = cs.vertical, cs2.vertical
+    chk('vertical type', type(v2).__name__ == type(v).__name__, type(v2).__name__, type(v).__name__)
+    chk('vertical layers', int(v2.layers) == int(v.layers), v2.layers, v.layers)
+    chk('vertical centers', _f8_values_equal(v2.centers, v.centers), v2.centers, v.centers)
+    if hasattr(v, 'boundaries'):
+        chk('vertical boundaries', hasattr(v2, 'boundaries') and _f8_values_equal(v2.boundaries, v.boundaries),
+            getattr(v2, 'boundaries', None), v.boundaries)
+        chk('vertical layer_thickness', hasattr(v2, 'layer_thickness') and _f8_values_equal(v2.layer_thickness, v.layer_thickness),
+            getattr(v2, 'layer_thickness', None), v.layer_thickness)
+    chk('nodal_shape 3d', tuple(int(s) for s in cs2.nodal_shape) == tuple(int(s) for s in cs.nodal_shape),
+        list(cs2.nodal_shape), list(cs.nodal_shape))
+    if full_eq:
+        chk('CoordinateSystem ==', cs2 == cs and cs2.horizontal == cs.horizontal and cs2.vertical == cs.vertical,
+            repr(cs2)[:300], repr(cs)[:300])
+
+
+def r_attrs_rt(ctx, a):
+    m = _P4()
+    cs, mesh = _p4_coords(m, a)
+    h = cs.horizontal
+    impl = a['grid'].get('impl', 'RealSphericalHarmonics')
+    d = cs.asdict()
+    ctx.count('attrs:vertical=' + type(cs.vertical).__name__)
+    ctx.count('attrs:impl=' + impl)
+    ctx.count('attrs:spacing=' + h.latitude_spacing)
+    ctx.count('attrs:offset=' + ('0' if h.longitude_offset == 0 else 'nonzero'))
+    ctx.count('attrs:radius=' + ('1' if h.radius == 1 else 'non-unit'))
+    # the serialised form itself records the discretisation
+    want = {'longitude_wavenumbers': h.longitude_wavenumbers, 'total_wavenumbers': h.total_wavenumbers,
+            'longitude_nodes': h.longitude_nodes, 'latitude_nodes': h.latitude_nodes,
+            'latitude_spacing': h.latitude_spacing, 'longitude_offset': h.longitude_offset, 'radius': h.radius,
+            'horizontal_grid_type': 'Grid', 'vertical_grid_type': type(cs.vertical).__name__,
+            'spherical_harmonics_impl': impl}
+    for k, w in want.items():
+        ctx.oracle(C19_ATTRS, k in d and d[k] == w and type(d[k]) in (int, float, str),
+                   {'via': 'asdict', 'field': k, 'got': d.get(k, '<missing>'), 'want': w})
+    try:
+        js = json.dumps(d)
+    except Exception as e:      # attrs must be plain python (JSON/netcdf serialisable)
+        ctx.oracle(C19_ATTRS, False, {'via': 'json', 'field': 'serialisable', 'error': repr(e)[:300]}); return
+    # dataset carrying the attrs (plus unrelated user attrs)
+    data = {'x': np.zeros(cs.modal_shape), 'y': np.zeros(h.nodal_shape)}
+    if tuple(h.nodal_shape) == tuple(h.modal_shape):
+        data.pop('y')
+    ok, ds = _p4_try(ctx, C19_ATTRS, 'data_to_xarray', lambda: m.xu.data_to_xarray(data, coords=cs, times=None, attrs=dict(a.get('extra_attrs') or {})))
+    if not ok: return
+    ok, ds_nc = _p4_try(ctx, C19_ATTRS, 'netcdf round trip of the dataset', lambda: m.xarray.load_dataset(bytes(ds.to_netcdf())))   # what save_netcdf/open_netcdf do
+    if not ok: return
+    sources = [('asdict', d), ('json', json.loads(js)), ('dataset', dict(ds.attrs)), ('netcdf', dict(ds_nc.attrs))]
+    one_level_p = a['vert']['type'] == 'pressure' and len(a['vert']['centers']) == 1
+    for via, attrs in sources:
+        try:
+            cs2 = m.xu.coordinate_system_from_attrs(attrs)
+        except Exception as e:
+            if via == 'netcdf' and one_level_p:
+                # netcdf stores a length-1 list attribute as a scalar; PressureCoordinates(scalar) raises (loud)
+                ctx.count('netcdf-attrs:one-level-pressure-rejected'); continue
+            ctx.oracle(C19_ATTRS, False, {'via': via, 'field': 'coordinate_system_from_attrs raised', 'error': repr(e)[:300]})
+            continue
+        got_impl = cs2.horizontal.spherical_harmonics_impl.__name__
+        same_impl = got_impl == impl
+        if not same_impl:
+            ctx.count('not-restored:spherical_harmonics_impl')
+            ctx.oracle(C19_ATTRS, got_impl == 'RealSphericalHarmonics',
+                       {'via': via, 'field': 'spherical_harmonics_impl', 'got': got_impl, 'want': 'default RealSphericalHarmonics'})
+        mesh_restored = (cs2.spmd_mesh is not None) == (mesh is not None)
+        if not mesh_restored:
+            ctx.count('not-restored:spmd_mesh')
+        _p4_compare_cs(ctx, m, cs, cs2, via, same_impl, full_eq=same_impl and mesh_restored)
+    # coordinate_system_from_dataset: attrs path, with the dropped fields re-supplied by the caller
+    for via, dset in (('from_dataset', ds), ('from_dataset(netcdf)', ds_nc)):
+        if via.endswith('(netcdf)') and one_level_p:
+            continue
+        try:
+            kw = {}
+            if impl != 'RealSphericalHarmonics':
+                kw['spherical_harmonics_impl'] = getattr(m.sh, impl)
+            if mesh is not None:
+                kw['spmd_mesh'] = mesh
+            cs3 = m.xu.coordinate_system_from_dataset(dset, **kw)
+        except Exception as e:
+            ctx.oracle(C19_ATTRS, False, {'via': via, 'field': 'coordinate_system_from_dataset raised', 'error': repr(e)[:300]})
+            continue
+        _p4_compare_cs(ctx, m, cs, cs3, via, same_impl=True, full_eq=True)
+    # the coordinates written next to the data describe the same grid
+    if 'lon' in ds.coords:
+        n_lon, n_lat = int(h.longitude_nodes), int(h.latitude_nodes)
+        ctx.oracle_close(C19_ATTRS, ds.lon.values, _expected_lon_deg(n_lon, float(h.longitude_offset)), scale=360.0, tol_rel=1e-12)
+        ctx.oracle_close(C19_ATTRS, ds.lat.values, _expected_lat_deg(n_lat, h.latitude_spacing), scale=90.0, tol_rel=1e-12)
+        if float(ds.lon.values.max()) >= 2 * np.pi:
+            off = m.xu.infer_longitude_offset(ds.lon)
+            ctx.oracle_close(C19_ATTRS, [off], [float(h.longitude_offset)], scale=1.0 + abs(float(h.longitude_offset)), tol_rel=1e-14)
+        if n_lat >= 4:
+            sp = m.xu.infer_latitude_spacing(ds.lat.values)
+            ctx.oracle(C19_ATTRS, sp == h.latitude_spacing, {'via': 'infer_latitude_spacing', 'got': sp, 'want': h.latitude_spacing})
+        else:
+            ctx.count('infer_latitude_spacing:skipped(lat_nodes<4)')
+    # serialised discretisation cannot be silently overridden by user attrs
+    try:
+        m.xu.data_to_xarray({'x': np.zeros(cs.modal_shape)}, coords=cs, times=None, attrs={a.get('clash_key', 'radius'): 2.5})
+        ctx.oracle(C19_ATTRS, False, {'via': 'data_to_xarray', 'field': 'attrs key clash accepted', 'key': a.get('clash_key', 'radius')})
+    except ValueError:
+        ctx.oracle(C19_ATTRS, True)
+
+
+def r_attrs_unsupported(ctx, a):
+    """Vertical descriptions without an asdict / registry entry must fail loudly, not serialise partially."""
+    m = _P4()
+    cs, _ = _p4_coords(m, a)
+    try:
+        d = cs.asdict()
+    except (AttributeError, TypeError, KeyError, ValueError):
+        ctx.count('attrs-unsupported-vertical:' + a['vert']['type'] + ':asdict-raises'); ctx.oracle(C19_ATTRS, True); return
+    try:
+        cs2 = m.xu.coordinate_system_from_attrs(d)
+    except Exception as e:
+        ctx.oracle(C19_ATTRS, False, {'via': 'asdict', 'field': 'serialised but not reconstructible', 'vert': a['vert']['type'], 'error': repr(e)[:200]})
+        return
+    ctx.count('attrs-unsupported-vertical:' + a['vert']['type'] + ':now-supported')
+    ctx.oracle(C19_ATTRS, type(cs2.vertical) is type(cs.vertical) and cs2.vertical == cs.vertical,
+               {'via': 'asdict', 'field': 'vertical', 'vert': a['vert']['type']})
+
+
+def r_shape_path(ctx, a):
+    """coordinate_system_from_dataset without attrs: shape/axis based inference (standard grids only)."""
+    m = _P4()
+    cs, _ = _p4_coords(m, a)
+    h = cs.horizontal
+    ok, ds = _p4_try(ctx, C19_ATTRS, 'data_to_xarray', lambda: m.xu.data_to_xarray({'u': np.zeros(cs.nodal_shape)}, coords=cs, times=None, serialize_coords_to_attrs=False))
+    if not ok: return
+    ctx.oracle(C19_ATTRS, len(ds.attrs) == 0, {'via': 'shape', 'field': 'serialize_coords_to_attrs=False leaves attrs', 'got': list(ds.attrs)})
+    try:
+        cs2 = m.xu.coordinate_system_from_dataset(ds, a['truncation'])
+    except Exception as e:
+        if not isinstance(e, AssertionError):
+            ctx.oracle(C19_ATTRS, False, {'via': 'shape', 'field': 'coordinate_system_from_dataset raised', 'error': repr(e)[:300]}); return
+        # verify_grid_consistency: a shifted grid is rejected loudly (the shape path does not infer the offset)
+        ctx.count('shape-path:rejected(verify_grid_consistency)')
+        ctx.oracle(C19_ATTRS, float(h.longitude_offset) != 0.0, {'via': 'shape', 'field': 'consistent grid rejected'})
+        return
+    h2 = cs2.horizontal
+    for f in ('longitude_wavenumbers', 'total_wavenumbers', 'longitude_nodes', 'latitude_nodes', 'latitude_spacing'):
+        ctx.oracle(C19_ATTRS, getattr(h2, f) == getattr(h, f), {'via': 'shape', 'field': f, 'got': getattr(h2, f), 'want': getattr(h, f)})
+    ctx.oracle(C19_ATTRS, _same_bits(h2.nodal_axes[1], h.nodal_axes[1]), {'via': 'shape', 'field': 'nodal_axes[sin_lat]'})
+    for f in ('longitude_offset', 'radius'):
+        if _bits(getattr(h2, f)) != _bits(getattr(h, f)):
+            ctx.count('shape-path-not-restored:' + f)
+    ctx.oracle(C19_ATTRS, abs(float(h2.longitude_offset) - float(h.longitude_offset)) * 180 / np.pi <= 1e-3,
+               {'via': 'shape', 'field': 'longitude_offset beyond verify tolerance', 'got': h2.longitude_offset, 'want': h.longitude_offset})
+    if a['vert']['type'] == 'pressure':
+        ctx.oracle(C19_ATTRS, type(cs2.vertical).__name__ == 'PressureCoordinates' and _f8_values_equal(cs2.vertical.centers, cs.vertical.centers),
+                   {'via': 'shape', 'field': 'vertical'})
+        if _bits(h2.longitude_offset) == _bits(h.longitude_offset) and _bits(h2.radius) == _bits(h.radius):
+            ctx.oracle(C19_ATTRS, cs2 == cs, {'via': 'shape', 'field': 'CoordinateSystem =='})
+    else:
+        ctx.count('shape-path:vertical-assumed-pressure')
+        ctx.oracle(C19_ATTRS, _f8_values_equal(np.asarray(cs2.vertical.centers, dtype=np.float64), np.asarray(cs.vertical.centers, dtype=np.float64)),
+                   {'via': 'shape', 'field': 'vertical centers'})
+    off = m.xu.infer_longitude_offset(ds.lon)
+    ctx.oracle_close(C19_ATTRS, [off], [float(h.longitude_offset)], scale=1.0 + abs(float(h.longitude_offset)), tol_rel=1e-14)
+
+
+# ---------------------------------------------------------------------------
+# clause 2: data_to_xarray -> xarray_to_*
+# ---------------------------------------------------------------------------
+def _p4_values(rng, shape, dtype, special):
+    # small rationals k/8 + j/2^30: exact in float64, not representable in float32 (a precision-losing path shows up)
+    x = np.asarray(rng.integers(-64, 65, size=shape), dtype=np.float64) / 8 + np.asarray(rng.integers(-512, 513, size=shape), dtype=np.float64) / 2.0 ** 30
+    x = np.asarray(x, dtype=dtype)
+    if special and x.ndim:
+        flat = x.reshape(-1)
+        sp = [-0.0, np.nan, np.inf, -np.inf, 5e-324, 1.7976931348623157e308, 2.0 ** -1022, 1 / 3]
+        with np.errstate(over='ignore', under='ignore'):
+            for s in sp[: max(1, min(len(sp), flat.size // 2))]:
+                flat[int(rng.integers(0, flat.size))] = s
+    return x
+
+
+def _p4_lead(a):
+    lead_shape = (); lead_dims = ()
+    if a.get('times') is not None:
+        lead_shape = (len(a['times']),) + lead_shape; lead_dims = ('time',) + lead_dims
+    if a.get('samples') is not None:
+        lead_shape = (len(a['samples']),) + lead_shape; lead_dims = ('sample',) + lead_dims
+    return lead_shape, lead_dims
+
+
+def _p4_build_state(m, cs, a):
+    """Returns (data dict, expected dims per variable name, expected output tree or None)."""
+    rng = np.random.Generator(np.random.PCG64(int(a['data_seed'])))
+    dtype = np.dtype(a.get('dtype', 'float64'))
+    special = bool(a.get('special'))
+    h = tuple(cs.horizontal.nodal_shape) if a['layout'] == 'nodal' else tuple(cs.horizontal.modal_shape)
+    hd = _NODAL if a['layout'] == 'nodal' else _MODAL
+    K = int(cs.vertical.layers)
+    lead_shape, lead_dims = _p4_lead(a)
+    real = bool(a.get('realization'))
+    rs, rd = ((1,), ('realization',)) if real else ((), ())
+    surf_name = 'surface' if K != 1 else 'level'
+    kinds = {'3d': ((K,) + h, ('level',) + hd), 'surf': ((1,) + h, (surf_name,) + hd), '2d': (h, hd), 'scalar': ((), ())}
+
+    def mk(kind):
+        shp, dims = kinds[kind]
+        if kind == 'scalar':
+            return _p4_values(rng, lead_shape, dtype, False), lead_dims
+        return _p4_values(rng, rs + lead_shape + shp, dtype, special), rd + lead_dims + dims
+
+    data = {}; dims = {}
+    kind = a['kind']
+    if kind in ('pe', 'pet'):
+        layout = [('vorticity', '3d'), ('divergence', '3d'), ('temperature_variation', '3d'), ('log_surface_pressure', 'surf')]
+        if kind == 'pet':
+            layout.append(('sim_time', 'scalar'))
+    elif kind == 'sw':
+        layout = [(k, '3d') for k in _SW_KEYS]
+    else:
+        layout = [(k, kd) for k, kd in a['generic']]
+    for k, kd in layout:
+        data[k], dims[k] = mk(kd)
+    tr = {}
+    for nm in a.get('tracers') or []:
+        tr[nm], dims[nm] = mk('3d')
+    if tr or a.get('tracers_key', True):
+        data['tracers'] = tr
+    dg = {}
+    for nm, kd in a.get('diagnostics') or []:
+        dg[nm], dims[nm] = mk(kd)
+    if dg:
+        data['diagnostics'] = dg
+    return data, dims, K, h, hd
+
+
+def _p4_tree_paths(t, prefix=()):
+    if isinstance(t, dict):
+        out = {}
+        if not t:
+            out[prefix + ('<empty dict>',)] = None
+        for k, v in t.items():
+            out.update(_p4_tree_paths(v, prefix + (k,)))
+        return out
+    return {prefix: t}
+
+
+def _p4_check_tree(ctx, what, got, want):
+    pg, pw = _p4_tree_paths(got), _p4_tree_paths(want)
+    ok = set(pg) == set(pw)
+    ctx.oracle(C19_XR, ok, None if ok else {'check': what + ': tree structure', 'got': sorted(map(str, pg)), 'want': sorted(map(str, pw))})
+    for p in pw:
+        if p in pg and pw[p] is not None:
+            g, w = pg[p], pw[p]
+            ok = isinstance(g, np.ndarray) and _same_bits(g, w)
+            ctx.oracle(C19_XR, ok, None if ok else {
+                'check': what + ': leaf bit-identical', 'leaf': '/'.join(map(str, p)), 'got_shape': list(np.shape(g)), 'want_shape': list(w.shape),
+                'got_dtype': str(getattr(g, 'dtype', type(g))), 'want_dtype': str(w.dtype),
+                'n_diff': int(np.sum(np.asarray(g) != w)) if np.shape(g) == w.shape else -1})
+
+
+def _p4_check_labels(ctx, m, cs, a, ds, dims, check_names=True):
+    """Dimension names/order of every variable and the coordinate values attached."""
+    h = cs.horizontal
+    impl = a['grid'].get('impl', 'RealSphericalHarmonics')
+    for k, want in dims.items():
+        ok = k in ds and tuple(ds[k].dims) == tuple(want)
+        if check_names:
+            ctx.oracle(C19_XR, ok, None if ok else {'check': 'dims', 'var': k, 'got': list(ds[k].dims) if k in ds else None, 'want': list(want)})
+    names = set(ds.data_vars)
+    ctx.oracle(C19_XR, names == set(dims), {'check': 'variables', 'got': sorted(names), 'want': sorted(dims)})
+    used = set()
+    for k in ds.data_vars:
+        used.update(ds[k].dims)
+    ctx.oracle(C19_XR, set(ds.coords) == used, {'check': 'coords present == dims used', 'got': sorted(ds.coords), 'want': sorted(used)})
+    lw, tw = int(h.longitude_wavenumbers), int(h.total_wavenumbers)
+    mm, ll = _expected_modal_axes(impl, lw, tw)
+    exact = {'level': np.asarray(cs.vertical.centers), 'surface': np.ones(1), 'longitudinal_mode': mm, 'total_wavenumber': ll,
+             'lon': h.nodal_axes[0] * 180 / np.pi, 'lat': np.arcsin(h.nodal_axes[1]) * 180 / np.pi}
+    if a.get('times') is not None:
+        exact['time'] = np.asarray(a['times'], dtype=np.float64)
+    if a.get('samples') is not None:
+        exact['sample'] = np.asarray(a['samples'])
+    if a.get('realization'):
+        exact['realization'] = np.arange(1)
+    for c in ds.coords:
+        if c in exact:
+            got = ds.coords[c].values
+            ok = tuple(ds.coords[c].dims) == (c,) and got.shape == exact[c].shape and bool(np.array_equal(got, exact[c]))
+            ctx.oracle(C19_XR, ok, None if ok else {'check': 'coordinate values', 'coord': c, 'got': got, 'want': exact[c]})
+    if 'lon' in ds.coords:
+        ctx.oracle_close(C19_XR, ds.lon.values, _expected_lon_deg(int(h.longitude_nodes), float(h.longitude_offset)), scale=360.0, tol_rel=1e-12)
+        ctx.oracle_close(C19_XR, ds.lat.values, _expected_lat_deg(int(h.latitude_nodes), h.latitude_spacing), scale=90.0, tol_rel=1e-12)
+    # never silently mislabel: every named axis has the length of the object it names
+    sizes = {'lon': int(h.longitude_nodes), 'lat': int(h.latitude_nodes), 'level': int(cs.vertical.layers), 'surface': 1,
+             'longitudinal_mode': int(h.modal_shape[0]), 'total_wavenumber': int(h.modal_shape[1]), 'realization': 1}
+    if a.get('times') is not None: sizes['time'] = len(a['times'])
+    if a.get('samples') is not None: sizes['sample'] = len(a['samples'])
+    for k in ds.data_vars:
+        for d, n in zip(ds[k].dims, ds[k].shape):
+            ok = d in sizes and sizes[d] == n and (d not in ds.coords or ds.coords[d].size == n)
+            ctx.oracle(C19_XR, ok, None if ok else {'check': 'axis length matches its name', 'var': k, 'dim': d, 'len': n, 'want': sizes.get(d)})
+
+
+def _p4_readback(m, a, ds):
+    kind = a['kind']; tr = tuple(a.get('tracers') or [])
+    if kind == 'pe':
+        return m.xu.xarray_to_primitive_eq_data(ds, tracers_to_include=tr)
+    if kind == 'pet':
+        return m.xu.xarray_to_primitive_equations_with_time_data(ds, tracers_to_include=tr)
+    if kind == 'sw':
+        return m.xu.xarray_to_shallow_water_eq_data(ds)
+    return None
+
+
+def _p4_expected_tree(a, data):
+    kind = a['kind']
+    if kind in ('pe', 'pet'):
+        keys = list(_PE_KEYS) + (['sim_time'] if kind == 'pet' else [])
+        out = {k: data[k] for k in keys}
+        out['tracers'] = dict(data.get('tracers') or {})
+        return out
+    if kind == 'sw':
+        return {k: data[k] for k in _SW_KEYS}
+    return None
+
+
+def _p4_kwargs(a):
+    kw = dict(times=None if a.get('times') is None else np.asarray(a['times'], dtype=np.float64),
+              sample_ids=None if a.get('samples') is None else np.asarray(a['samples']))
+    if a.get('realization'):
+        kw['additional_coords'] = {'realization': np.arange(1)}
+    if a.get('extra_attrs'):
+        kw['attrs'] = dict(a['extra_attrs'])
+    return kw
+
+
+def r_state_rt(ctx, a):
+    m = _P4()
+    cs, _ = _p4_coords(m, a)
+    data, dims, K, h, hd = _p4_build_state(m, cs, a)
+    ctx.count('state:%s/%s' % (a['kind'], a['layout']))
+    ctx.count('state:lead=%s%s' % ('S' if a.get('samples') is not None else '', 'T' if a.get('times') is not None else ''))
+    ctx.count('state:tracers=%d' % len(a.get('tracers') or []))
+    snapshot = {p: (None if v is None else v.copy()) for p, v in _p4_tree_paths(data).items()}
+    ok, ds = _p4_try(ctx, C19_XR, 'data_to_xarray', lambda: m.xu.data_to_xarray(data, coords=cs, **_p4_kwargs(a)))
+    if not ok: return
+    # the input is not modified by writing
+    for p, v in _p4_tree_paths(data).items():
+        if v is not None:
+            ctx.oracle(C19_XR, _same_bits(v, snapshot[p]), {'check': 'input mutated by data_to_xarray', 'leaf': '/'.join(p)})
+    _p4_check_labels(ctx, m, cs, a, ds, dims)
+    # every variable holds exactly the array that was written
+    flat = {k: v for k, v in data.items() if k not in ('tracers', 'diagnostics')}
+    flat.update(data.get('tracers') or {}); flat.update(data.get('diagnostics') or {})
+    for k, v in flat.items():
+        ok = k in ds and _same_bits(ds[k].values, v)
+        ctx.oracle(C19_XR, ok, None if ok else {'check': 'dataset variable == written array', 'var': k})
+    dsets = [('memory', ds)]
+    if a.get('netcdf'):
+        ok, dnc = _p4_try(ctx, C19_XR, 'netcdf round trip of the dataset', lambda: m.xarray.load_dataset(bytes(ds.to_netcdf())))
+        if not ok: return
+        dsets.append(('netcdf', dnc))
+        ctx.count('state:netcdf')
+        for k in flat:
+            ok = tuple(dsets[1][1][k].dims) == tuple(ds[k].dims)
+            ctx.oracle(C19_XR, ok, None if ok else {'check': 'dims after netcdf', 'var': k})
+    want = _p4_expected_tree(a, data)
+    for via, d in dsets:
+        if want is not None:
+            ok, got = _p4_try(ctx, C19_XR, 'xarray_to_* (' + via + ')', lambda: _p4_readback(m, a, d))
+            if ok: _p4_check_tree(ctx, a['kind'] + ' read back (' + via + ')', got, want)
+        else:
+            for k, v in flat.items():
+                ok = _same_bits(d[k].values, v)
+                ctx.oracle(C19_XR, ok, None if ok else {'check': 'generic read back (' + via + ')', 'var': k})
+    # the dataset's attrs describe the coordinate system the data live on
+    if a['grid'].get('impl', 'RealSphericalHarmonics') == 'RealSphericalHarmonics':
+        ok, cs2 = _p4_try(ctx, C19_ATTRS, 'coordinate_system_from_dataset', lambda: m.xu.coordinate_system_from_dataset(ds))
+        if not ok: return
+        ctx.oracle(C19_ATTRS, cs2 == cs, {'via': 'state dataset', 'field': 'CoordinateSystem =='})
+        for k in flat:
+            if flat[k].ndim >= 2 + len(_p4_lead(a)[0]) + (1 if a.get('realization') else 0):
+                want_h = tuple(cs2.horizontal.nodal_shape) if a['layout'] == 'nodal' else tuple(cs2.horizontal.modal_shape)
+                ctx.oracle(C19_ATTRS, tuple(ds[k].shape[-2:]) == want_h, {'via': 'state dataset', 'field': 'horizontal shape', 'var': k})
+
+
+def r_data_dict_rt(ctx, a):
+    """xarray_to_data_dict: (time, level, lon, lat) datasets; 2-D surface fields gain a singleton level."""
+    m = _P4()
+    cs, _ = _p4_coords(m, a)
+    rng = np.random.Generator(np.random.PCG64(int(a['data_seed'])))
+    hn = tuple(cs.horizontal.nodal_shape); K = int(cs.vertical.layers)
+    lead = () if a.get('times') is None else (len(a['times']),)
+    ld = () if a.get('times') is None else ('time',)
+    data = {}; dims = {}
+    for k in a['vars3d']:
+        data[k] = _p4_values(rng, lead + (K,) + hn, np.float64, bool(a.get('special'))); dims[k] = ld + ('level',) + _NODAL
+    for k in a['vars2d']:
+        data[k] = _p4_values(rng, lead + hn, np.float64, bool(a.get('special'))); dims[k] = ld + _NODAL
+    bad = a.get('bad')
+    kw = _p4_kwargs(a)
+    if bad == 'surface':
+        data['bad'] = _p4_values(rng, lead + (1,) + hn, np.float64, False)
+    elif bad == 'modal':
+        data['bad'] = _p4_values(rng, lead + (K,) + tuple(cs.horizontal.modal_shape), np.float64, False)
+    elif bad == 'sample':
+        kw['sample_ids'] = np.arange(2)
+        data = {k: np.stack([v, v]) for k, v in data.items()}
+    ok, ds = _p4_try(ctx, C19_XR, 'data_to_xarray', lambda: m.xu.data_to_xarray(data, coords=cs, **kw))
+    if not ok: return
+    ctx.count('data_dict:bad=%s' % bad)
+    if bad:
+        try:
+            m.xu.xarray_to_data_dict(ds)
+            ctx.oracle(C19_XR, False, {'check': 'xarray_to_data_dict accepted unexpected dimension', 'bad': bad, 'dims': sorted(map(str, ds.dims))})
+        except ValueError:
+            ctx.oracle(C19_XR, True)
+        return
+    for k, want in dims.items():
+        ok = tuple(ds[k].dims) == want
+        ctx.oracle(C19_XR, ok, None if ok else {'check': 'dims', 'var': k, 'got': list(ds[k].dims), 'want': list(want)})
+    ok, out = _p4_try(ctx, C19_XR, 'xarray_to_data_dict', lambda: m.xu.xarray_to_data_dict(ds))
+    if not ok: return
+    want = {k: (v if k in a['vars3d'] else np.expand_dims(v, -3)) for k, v in data.items()}
+    _p4_check_tree(ctx, 'xarray_to_data_dict', out, want)
+    # order independence: the reader transposes to (time, level, lon, lat)
+    if a.get('shuffle'):
+        order = [d for d in ('lat', 'level', 'lon', 'time') if d in ds.dims]
+        _p4_check_tree(ctx, 'xarray_to_data_dict(transposed input)', m.xu.xarray_to_data_dict(ds.transpose(*order)), want)
+
+
+def r_state_ambiguous(ctx, a):
+    """Shapes that the shape->dims table must reject or resolve; it must never silently mislabel."""
+    m = _P4()
+    cs, _ = _p4_coords(m, a)
+    case = a['case']
+    ctx.count('ambiguous:' + case)
+    hn = tuple(cs.horizontal.nodal_shape); hm = tuple(cs.horizontal.modal_shape); K = int(cs.vertical.layers)
+
+    def must_raise(what, fn, exc=ValueError):
+        try:
+            fn()
+        except exc:
+            ctx.oracle(C19_XR, True); return
+        except Exception as e:
+            ctx.oracle(C19_XR, False, {'check': what + ': wrong exception', 'error': repr(e)[:200]}); return
+        ctx.oracle(C19_XR, False, {'check': what + ': accepted silently'})
+
+    if case == 'coord_collides_level':
+        x = np.zeros((K,) + hn)
+        must_raise('additional coordinate with len == layers',
+                   lambda: m.xu.data_to_xarray({'x': x}, coords=cs, times=None, additional_coords={a.get('coord', 'foo'): np.arange(float(K))}))
+        return
+    if case == 'coord_not_1d':
+        must_raise('additional coordinate not 1-d',
+                   lambda: m.xu.data_to_xarray({'x': np.zeros((K,) + hn)}, coords=cs, times=None, additional_coords={'foo': np.zeros((2, 2))}))
+        return
+    if case == 'bad_shape':
+        lead_shape, _ = _p4_lead(a)
+        shapes = {'transposed': lead_shape + (K,) + hn[::-1], 'extra_level': lead_shape + (K + 1,) + hn,
+                  'missing_lead': (K,) + hn, 'lead_swapped': lead_shape[::-1] + (K,) + hn, 'level_last': lead_shape + hn + (K,),
+                  'modal_extra': lead_shape + (K,) + (hm[0] + 1, hm[1])}
+        shp = shapes[a['which']]
+        table = set()
+        for base in [(K,) + hn, (K,) + hm, hn, hm, (1,) + hn, (1,) + hm, ()]:
+            table.add(lead_shape + base)
+        if shp in table:
+            ctx.count('ambiguous:bad_shape-coincides-with-valid'); return
+        for where in ('prognostic', 'tracer', 'diagnostic'):
+            good = np.zeros(lead_shape + (K,) + hm)
+            d = {'ok': good}
+            if where == 'prognostic': d['bad'] = np.zeros(shp)
+            elif where == 'tracer': d['tracers'] = {'bad': np.zeros(shp)}
+            else: d['diagnostics'] = {'bad': np.zeros(shp)}
+            must_raise('unrecognised shape %s (%s)' % (list(shp), where), lambda: m.xu.data_to_xarray(d, coords=cs, **_p4_kwargs(a)))
+        return
+    if case == 'name_clash':
+        x = np.zeros((K,) + hm)
+        d = {'vorticity': x, 'divergence': x, a['group']: {a['name']: x}}
+        must_raise('%s name collides with prognostic' % a['group'], lambda: m.xu.data_to_xarray(d, coords=cs, times=None))
+        return
+    if case == 'tracer_named_like_coord':
+        b = dict(a, kind='pe', tracers=[a['name']])
+        data, dims, K, h, hd = _p4_build_state(m, cs, b)
+        try:
+            ds = m.xu.data_to_xarray(data, coords=cs, **_p4_kwargs(b))
+        except ValueError:
+            ctx.count('ambiguous:tracer_named_like_coord:rejected'); ctx.oracle(C19_XR, True); return
+        ctx.count('ambiguous:tracer_named_like_coord:accepted')
+        _p4_check_labels(ctx, m, cs, b, ds, dims)
+        _p4_check_tree(ctx, 'pe read back (tracer named %r)' % a['name'], _p4_readback(m, b, ds), _p4_expected_tree(b, data))
+        return
+    if case == 'additional_coord':
+        # a user coordinate of length E != layers labels a leading axis of that length
+        E = int(a['E']); nm = a.get('coord', 'ensemble')
+        rng = np.random.Generator(np.random.PCG64(int(a['data_seed'])))
+        lead_shape, lead_dims = _p4_lead(a)
+        h, hd = (hn, _NODAL) if a['layout'] == 'nodal' else (hm, _MODAL)
+        data = {'e3': _p4_values(rng, lead_shape + (E,) + h, np.float64, False), 'x3': _p4_values(rng, lead_shape + (K,) + h, np.float64, False),
+                'e1': _p4_values(rng, lead_shape + (E,), np.float64, False)}
+        dims = {'e3': lead_dims + (nm,) + hd, 'x3': lead_dims + ('level',) + hd, 'e1': lead_dims + (nm,)}
+        ac = {nm: np.arange(float(E)) * 0.5}
+        kw = _p4_kwargs(a); kw['additional_coords'] = ac
+        try:
+            ds = m.xu.data_to_xarray(data, coords=cs, **kw)
+        except ValueError:
+            ctx.oracle(C19_XR, E == K, {'check': 'additional coordinate rejected although its length differs from layers', 'E': E, 'K': K}); return
+        ctx.oracle(C19_XR, E != K, {'check': 'additional coordinate with len == layers accepted'})
+        if E == 1 and K != 1:
+            ctx.count('ambiguous:additional_coord len 1 vs surface'); dims['e3'] = None; dims['e1'] = None
+        for k, want in dims.items():
+            if want is not None:
+                ok = tuple(ds[k].dims) == want
+                ctx.oracle(C19_XR, ok, None if ok else {'check': 'dims', 'var': k, 'got': list(ds[k].dims), 'want': list(want)})
+        for k, v in data.items():
+            ctx.oracle(C19_XR, _same_bits(ds[k].values, v), {'check': 'read back', 'var': k})
+        if nm in ds.coords:
+            ctx.oracle(C19_XR, bool(np.array_equal(ds.coords[nm].values, np.arange(float(E)) * 0.5)), {'check': 'coordinate values', 'coord': nm})
+        return
+    if case in ('one_layer_nodal', 'nodal_eq_modal'):
+        # inherently colliding shapes: the implementation may reject (loudly) or label; if it labels, the labels must be
+        # length-consistent and the data must read back bit-identical
+        data, dims, K, h, hd = _p4_build_state(m, cs, a)
+        try:
+            ds = m.xu.data_to_xarray(data, coords=cs, **_p4_kwargs(a))
+        except ValueError as e:
+            ctx.count('ambiguous:%s:rejected(%s)' % (case, 'xarray dims/rank mismatch' if 'Could not convert tuple' in str(e) or 'dimensions' in str(e) else 'ValueError'))
+            ctx.oracle(C19_XR, True); return
+        ctx.count('ambiguous:%s:labelled' % case)
+        fam = set()
+        for k in ds.data_vars:
+            if 'lon' in ds[k].dims: fam.add('%dd->nodal' % (ds[k].ndim))
+            if 'longitudinal_mode' in ds[k].dims: fam.add('%dd->modal' % (ds[k].ndim))
+        for f in sorted(fam):
+            ctx.count('ambiguous:%s:%s(intended %s)' % (case, f, a['layout']))
+        _p4_check_labels(ctx, m, cs, a, ds, dims, check_names=(case == 'one_layer_nodal'))
+        want = _p4_expected_tree(a, data)
+        if want is not None:
+            _p4_check_tree(ctx, a['kind'] + ' read back (collision)', _p4_readback(m, a, ds), want)
+        for k, v in _p4_tree_paths({k: v for k, v in data.items()}).items():
+            if v is not None:
+                ctx.oracle(C19_XR, _same_bits(ds[k[-1]].values, v), {'check': 'dataset variable == written array', 'var': k[-1]})
+        return
+    raise ValueError(case)
+
+
+def _p4_guard(clause, fn):
+    """An exception escaping a runner (the implementation failing on an input the runner considers valid) is
+    reported as a failure of the runner's clause, so that it comes with a replayable input."""
+    def run(ctx, a):
+        try:
+            return fn(ctx, a)
+        except Exception as e:
+            import traceback
+            ctx.oracle(clause, False, {'check': 'unexpected exception in ' + fn.__name__, 'error': repr(e)[:300],
+                                       'traceback': traceback.format_exc()[-800:]})
+    run.__name__ = fn.__name__
+    return run
+
+
+RUNNERS_PART4 = {'xr_attrs_rt': _p4_guard(C19_ATTRS, r_attrs_rt), 'xr_attrs_unsupported': _p4_guard(C19_ATTRS, r_attrs_unsupported),
+                 'xr_shape_path': _p4_guard(C19_ATTRS, r_shape_path), 'xr_state_rt': _p4_guard(C19_XR, r_state_rt),
+                 'xr_data_dict_rt': _p4_guard(C19_XR, r_data_dict_rt), 'xr_state_ambiguous': _p4_guard(C19_XR, r_state_ambiguous)}
+
+
+# ---------------------------------------------------------------------------
+# generator
+# ---------------------------------------------------------------------------
+_SPACINGS = ['gauss', 'equiangular', 'equiangular_with_poles']
+_IMPLS = ['RealSphericalHarmonics', 'FastSphericalHarmonics', 'RealSphericalHarmonicsWithZeroImag']
+
+
+def _pick(rng, xs):
+    return xs[int(rng.integers(0, len(xs)))]
+
+
+def _g_horiz_kw(rng, force_offset=None, force_radius=None):
+    kw = {'latitude_spacing': _pick(rng, _SPACINGS)}
+    off = force_offset if force_offset is not None else _pick(rng, ['zero', 'zero', 'rand', 'neg', 'pi/n', 'dyadic'])
+    if off == 'rand': kw['longitude_offset'] = float(rng.uniform(0.01, 2.0))
+    elif off == 'neg': kw['longitude_offset'] = -float(rng.uniform(0.01, 1.0))
+    elif off == 'pi/n': kw['longitude_offset'] = float(np.pi / int(rng.integers(2, 40)))
+    elif off == 'dyadic': kw['longitude_offset'] = 0.125
+    elif off == 'zero' and rng.integers(0, 2): kw['longitude_offset'] = 0.0
+    rad = force_radius if force_radius is not None else _pick(rng, ['none', 'one', 'earth', 'half', 'rand', 'rand'])
+    if rad == 'one': kw['radius'] = 1.0
+    elif rad == 'earth': kw['radius'] = 6.37122e6
+    elif rad == 'half': kw['radius'] = 0.5
+    elif rad == 'rand': kw['radius'] = float(rng.uniform(0.1, 10.0))
+    return kw
+
+
+def _g_grid(rng, ctor=None, impl=None, max_gauss=8, **force):
+    ctor = ctor or _pick(rng, ['with_wavenumbers', 'with_wavenumbers', 'construct', 'construct', 'raw', 'raw'])
+    kw = _g_horiz_kw(rng, **force)
+    if ctor == 'with_wavenumbers':
+        kw['longitude_wavenumbers'] = int(rng.integers(1, 9))
+        kw['dealiasing'] = _pick(rng, ['linear', 'quadratic', 'cubic'])
+    elif ctor == 'construct':
+        kw['gaussian_nodes'] = int(rng.integers(1, max_gauss + 1))
+        kw['max_wavenumber'] = int(rng.integers(0, 2 * kw['gaussian_nodes'] + 2))
+    elif ctor == 'raw':
+        lw = int(rng.integers(1, 7))
+        kw.update(longitude_wavenumbers=lw, total_wavenumbers=lw + int(rng.integers(0, 4)),
+                  longitude_nodes=int(rng.integers(2, 21)), latitude_nodes=int(rng.integers(2, 13)))
+        # avoid the inherently ambiguous nodal_shape == modal_shape grids here (they get their own runner)
+        if kw['longitude_nodes'] in (2 * lw - 1, 2 * lw) and kw['latitude_nodes'] == kw['total_wavenumbers']:
+            kw['latitude_nodes'] += 1
+    g = {'ctor': ctor, 'kw': kw}
+    impl = impl or _pick(rng, ['RealSphericalHarmonics'] * 4 + _IMPLS[1:])
+    if impl != 'RealSphericalHarmonics':
+        g['impl'] = impl
+    return g
+
+
+def _g_grid_dims(g):
+    """(lon_nodes, lat_nodes, modal0, modal1) of a grid spec without importing dinosaur."""
+    kw = g['kw']; c = g['ctor']
+    if c == 'with_wavenumbers':
+        lw = kw['longitude_wavenumbers']; tw = lw + 1
+        order = {'linear': 2, 'quadratic': 3, 'cubic': 4}[kw.get('dealiasing', 'quadratic')]
+        ln = order * lw + 1; la = -(-ln // 2)
+    elif c == 'construct':
+        lw = kw['max_wavenumber'] + 1; tw = lw + 1; ln = 4 * kw['gaussian_nodes']; la = 2 * kw['gaussian_nodes']
+    else:
+        lw, tw, ln, la = kw['longitude_wavenumbers'], kw['total_wavenumbers'], kw['longitude_nodes'], kw['latitude_nodes']
+    m0 = 2 * lw - 1 if g.get('impl', 'RealSphericalHarmonics') == 'RealSphericalHarmonics' else 2 * lw
+    return ln, la, m0, tw
+
+
+def _g_fix_collision(g):
+    """Make sure nodal_shape != modal_shape (bump latitude nodes of raw grids; others re-drawn by caller)."""
+    ln, la, m0, m1 = _g_grid_dims(g)
+    return (ln, la) != (m0, m1)
+
+
+def _g_vert(rng, kind=None, K=None):
+    kind = kind or _pick(rng, ['sigma', 'sigma', 'sigma_eq', 'layer', 'pressure'])
+    if kind == 'sigma':
+        K = K or int(rng.integers(1, 9))
+        return {'type': 'sigma', 'boundaries': util.uneven_boundaries(rng, K).tolist()}
+    if kind == 'sigma_eq':
+        return {'type': 'sigma_eq', 'layers': K or int(rng.integers(1, 9))}
+    if kind == 'layer':
+        return {'type': 'layer', 'layers': K or int(rng.integers(1, 7))}
+    K = K or int(rng.integers(1, 7))
+    pool = [1.0, 10.0, 50.0, 100.0, 250.0, 500.0, 700.0, 850.0, 925.0, 1000.0] + [float(x) for x in rng.uniform(0.5, 1100.0, size=6)]
+    idx = rng.choice(len(pool), size=K, replace=False)
+    return {'type': 'pressure', 'centers': sorted({pool[int(i)] for i in idx})}
+
+
+def _g_vert_layers(v):
+    return {'sigma': lambda: len(v['boundaries']) - 1, 'sigma_eq': lambda: v['layers'], 'layer': lambda: v['layers'],
+            'pressure': lambda: len(v['centers'])}[v['type']]()
+
+
+_SAFE_TRACERS = ['specific_humidity', 'q', 'clw', 'specific_cloud_ice_water_content', 'T0', 'tracer_1', 'u', 'z']
+_ODD_TRACERS = ['a b', 't.1', 'x-y', 'ŧracer', '_', '9', 'Vorticity', 'tracers', 'diagnostics', 'Time', 'level_2', 'q/2', '']
+
+
+def _g_tracers(rng, n, netcdf, kind):
+    out = []
+    while len(out) < n:
+        r = int(rng.integers(0, 4))
+        if netcdf or r <= 1:
+            nm = _pick(rng, _SAFE_TRACERS)
+        elif r == 2:
+            nm = _pick(rng, _ODD_TRACERS)
+        else:
+            alphabet = 'abcdefghijklmnopqrstuvwxyzABCXYZ0123456789_'
+            nm = ''.join(alphabet[int(i)] for i in rng.integers(0, len(alphabet), size=int(rng.integers(1, 9))))
+            if nm[0].isdigit(): nm = 'x' + nm
+        if nm in _RESERVED or nm in out:
+            continue
+        out.append(nm)
+    return out
+
+
+def _g_lead(rng, K, ln, la, mode=None):
+    """times / samples, sometimes deliberately colliding in length with layers or node counts."""
+    mode = mode or _pick(rng, ['', 'T', 'T', 'ST', 'ST', 'S'])
+    def length():
+        return int(_pick(rng, [1, 2, 3, K, K, ln if ln <= 8 else 2, la if la <= 8 else 3]))
+    times = samples = None
+    if 'T' in mode:
+        n = length(); t0 = float(rng.integers(0, 5)) / 4; dt = _pick(rng, [0.25, 0.6, 300.0, 1.0])
+        times = [t0 + dt * i for i in range(n)]
+    if 'S' in mode:
+        n = length(); s0 = int(rng.integers(0, 4))
+        samples = [s0 + i for i in range(n)]
+    return times, samples
+
+
+def gen_part4(ctx):
+    rng = ctx.rng
+    quick = ctx.tier == 'quick'
+    mult = 1 if quick else 4
+
+    # ---- clause 1: attrs round trip ------------------------------------------------
+    fixed = [
+        ({'ctor': 'with_wavenumbers', 'kw': {'longitude_wavenumbers': 4, 'latitude_spacing': 'equiangular', 'longitude_offset': 0.3, 'radius': 6.37122e6}},
+         {'type': 'sigma', 'boundaries': [0.0, 0.2, 0.7, 1.0]}),
+        ({'ctor': 'construct', 'kw': {'max_wavenumber': 5, 'gaussian_nodes': 4, 'latitude_spacing': 'equiangular_with_poles', 'longitude_offset': float(np.pi / 16)}},
+         {'type': 'layer', 'layers': 3}),
+        ({'ctor': 'raw', 'kw': {'longitude_wavenumbers': 3, 'total_wavenumbers': 5, 'longitude_nodes': 9, 'latitude_nodes': 7, 'radius': 0.5}},
+         {'type': 'pressure', 'centers': [10.0, 50.0, 500.5, 925.0]}),
+        ({'ctor': 'with_wavenumbers', 'kw': {'longitude_wavenumbers': 5, 'dealiasing': 'cubic', 'radius': 2.5}, 'impl': 'FastSphericalHarmonics'},
+         {'type': 'sigma_eq', 'layers': 3}),
+        ({'ctor': 'with_wavenumbers', 'kw': {'longitude_wavenumbers': 3, 'longitude_offset': 0.1}, 'impl': 'RealSphericalHarmonicsWithZeroImag'},
+         {'type': 'sigma', 'boundaries': [0.0, 1 / 3, 1.0]}),
+        ({'ctor': 'with_wavenumbers', 'kw': {'longitude_wavenumbers': 3, 'radius': 3.0}, 'impl': 'FastSphericalHarmonics', 'mesh': True},
+         {'type': 'sigma_eq', 'layers': 4}),
+        ({'ctor': 'T21', 'kw': {'latitude_spacing': 'gauss', 'longitude_offset': 0.05, 'radius': 6.37122e6}},
+         {'type': 'pressure', 'centers': [500.0]}),
+        ({'ctor': 'TL31', 'kw': {'latitude_spacing': 'equiangular'}},
+         {'type': 'sigma_eq', 'layers': 1}),
+        ({'ctor': 'construct', 'kw': {'max_wavenumber': 2, 'gaussian_nodes': 2, 'radius': 1.0, 'longitude_offset': 0.0}},
+         {'type': 'layer', 'layers': 1}),
+    ]
+    for g, v in fixed:
+        yield 'xr_attrs_rt', {'grid': g, 'vert': v, 'extra_attrs': {'g': 9.80616, 'name': 'run-1'}, 'clash_key': 'radius'}
+    n_rand = 15 * mult
+    vkinds = ['sigma', 'sigma_eq', 'layer', 'pressure']
+    clash_keys = ['radius', 'longitude_offset', 'latitude_spacing', 'boundaries', 'layers', 'centers', 'longitude_nodes',
+                  'horizontal_grid_type', 'vertical_grid_type', 'spherical_harmonics_impl', 'spmd_mesh']
+    for i in range(n_rand):
+        g = _g_grid(rng)
+        v = _g_vert(rng, kind=vkinds[i % 4])
+        ck = _pick(rng, clash_keys)
+        own = {'sigma': 'boundaries', 'sigma_eq': 'boundaries', 'layer': 'layers', 'pressure': 'centers'}[v['type']]
+        if ck in ('boundaries', 'layers', 'centers'): ck = own
+        extra = _pick(rng, [None, {'g': 9.80616}, {'a': 1, 'mean': 10.5, 'note': 'x'}])
+        yield 'xr_attrs_rt', {'grid': g, 'vert': v, 'extra_attrs': extra, 'clash_key': ck}
+    for g in ([{'ctor': 'T42', 'kw': {'longitude_offset': 0.01}}, {'ctor': 'TL63', 'kw': {'latitude_spacing': 'equiangular_with_poles', 'radius': 6.37122e6}}]
+              if not quick else []):
+        yield 'xr_attrs_rt', {'grid': g, 'vert': _g_vert(rng), 'extra_attrs': None, 'clash_key': 'radius'}
+    g0 = {'ctor': 'with_wavenumbers', 'kw': {'longitude_wavenumbers': 3}}
+    yield 'xr_attrs_unsupported', {'grid': g0, 'vert': {'type': 'hybrid', 'a': [0.0, 20.0, 50.0, 0.0], 'b': [0.0, 0.1, 0.6, 1.0]}}
+    yield 'xr_attrs_unsupported', {'grid': g0, 'vert': {'type': 'none'}}
+    # shape-based fallback (standard grids only)
+    shape_cases = [('T21', 'CUBIC', 'gauss', 'pressure'), ('TL31', 'LINEAR', 'equiangular', 'pressure'),
+                   ('T21', 'CUBIC', 'equiangular_with_poles', 'sigma'), ('TL31', 'LINEAR', 'gauss', 'layer')]
+    if not quick:
+        shape_cases += [('T31', 'CUBIC', 'equiangular', 'pressure'), ('TL47', 'LINEAR', 'gauss', 'pressure'),
+                        ('T42', 'CUBIC', 'gauss', 'pressure'), ('TL63', 'LINEAR', 'equiangular_with_poles', 'pressure')]
+    for j, (nm, trunc, sp, vk) in enumerate(shape_cases):
+        kw = {'latitude_spacing': sp}
+        if j % 4 == 2: kw['radius'] = 6.37122e6
+        yield 'xr_shape_path', {'grid': {'ctor': nm, 'kw': kw}, 'truncation': trunc, 'vert': _g_vert(rng, kind=vk, K=int(rng.integers(2, 6)))}
+    yield 'xr_shape_path', {'grid': {'ctor': 'T21', 'kw': {'longitude_offset': 0.05}}, 'truncation': 'CUBIC', 'vert': _g_vert(rng, kind='pressure', K=3)}
+
+    # ---- clause 2: states ------------------------------------------------------------
+    n_state = 30 * mult
+    kinds = ['pe', 'pe', 'pet', 'pet', 'sw', 'generic']
+    for i in range(n_state):
+        kind = kinds[i % len(kinds)]
+        layout = 'nodal' if (i // len(kinds)) % 2 == 0 else 'modal'
+        if rng.integers(0, 4) == 0: layout = _pick(rng, ['nodal', 'modal'])
+        while True:
+            g = _g_grid(rng, impl=_pick(rng, ['RealSphericalHarmonics'] * 5 + _IMPLS[1:]))
+            if _g_fix_collision(g): break
+        ln, la, m0, m1 = _g_grid_dims(g)
+        vk = 'layer' if kind == 'sw' and rng.integers(0, 3) else None
+        v = _g_vert(rng, kind=vk)
+        K = _g_vert_layers(v)
+        if K == 1 and layout == 'nodal':
+            # a one-layer nodal field collides with the (1, lon, lat) surface entry: exercised by xr_state_ambiguous
+            v = _g_vert(rng, kind=v['type'], K=int(rng.integers(2, 7))); K = _g_vert_layers(v)
+        times, samples = _g_lead(rng, K, ln, la, mode=['', 'T', 'ST', 'S', 'T', 'ST'][(i // 2) % 6] if i < 24 else None)
+        netcdf = bool(rng.integers(0, 3) == 0)
+        a = {'grid': g, 'vert': v, 'kind': kind, 'layout': layout, 'times': times, 'samples': samples,
+             'data_seed': int(rng.integers(0, 2 ** 31)), 'special': bool(rng.integers(0, 3) == 0), 'netcdf': netcdf,
+             'dtype': 'float32' if rng.integers(0, 8) == 0 else 'float64'}
+        if kind in ('pe', 'pet', 'generic'):
+            a['tracers'] = _g_tracers(rng, int(rng.integers(0, 4)), netcdf, kind)
+            a['tracers_key'] = bool(a['tracers']) or bool(rng.integers(0, 4))
+        if kind == 'generic':
+            a['generic'] = [['u3', '3d'], ['sp', '2d'], ['ps', 'surf'], ['t0', 'scalar']][: int(rng.integers(1, 5))]
+            if rng.integers(0, 2):
+                a['diagnostics'] = [['precip', 'surf' if K != 1 else '3d'], ['cape', '3d']][: int(rng.integers(1, 3))]
+            a['realization'] = bool(rng.integers(0, 3) == 0)
+            if a['realization'] and netcdf and samples is not None:
+                a['netcdf'] = False
+        if rng.integers(0, 3) == 0:
+            a['extra_attrs'] = {'g': 9.80616, 'mean': 10.5}
+        ctx.count('gen:K=%d' % K)
+        yield 'xr_state_rt', a
+
+    n_dd = 4 * mult
+    for i in range(n_dd):
+        while True:
+            g = _g_grid(rng, impl='RealSphericalHarmonics')
+            if _g_fix_collision(g): break
+        v = _g_vert(rng, K=int(rng.integers(2, 7)))
+        ln, la, _, _ = _g_grid_dims(g)
+        times, _ = _g_lead(rng, _g_vert_layers(v), ln, la, mode='T' if i % 2 == 0 else '')
+        yield 'xr_data_dict_rt', {'grid': g, 'vert': v, 'times': times, 'data_seed': int(rng.integers(0, 2 ** 31)),
+                                  'vars3d': ['u', 'v', 't'][: int(rng.integers(1, 4))], 'vars2d': ['sp', 'sst'][: int(rng.integers(0, 3))],
+                                  'special': bool(i % 2), 'shuffle': True, 'bad': [None, None, 'surface', 'modal', None, 'sample'][i % 6]}
+
+    # ---- ambiguous / colliding shapes --------------------------------------------------
+    def small_grid():
+        while True:
+            g = _g_grid(rng, impl='RealSphericalHarmonics')
+            if _g_fix_collision(g): return g
+    for rep in range(mult):
+        g = small_grid(); v = _g_vert(rng, K=int(rng.integers(2, 6)))
+        yield 'xr_state_ambiguous', {'case': 'coord_collides_level', 'grid': g, 'vert': v, 'coord': _pick(rng, ['foo', 'ensemble', 'member'])}
+        if rep == 0:
+            yield 'xr_state_ambiguous', {'case': 'coord_not_1d', 'grid': g, 'vert': v}
+        for which in (['transposed', 'extra_level', 'missing_lead'] if quick else
+                      ['transposed', 'extra_level', 'missing_lead', 'lead_swapped', 'level_last', 'modal_extra']):
+            g = small_grid(); v = _g_vert(rng, K=int(rng.integers(2, 6)))
+            ln, la, _, _ = _g_grid_dims(g)
+            mode = 'ST' if which in ('missing_lead', 'lead_swapped') else _pick(rng, ['', 'T', 'ST'])
+            times, samples = _g_lead(rng, _g_vert_layers(v), ln, la, mode=mode)
+            if which == 'lead_swapped' and len(times) == len(samples):
+                times = times + [times[-1] + 1.0]
+            yield 'xr_state_ambiguous', {'case': 'bad_shape', 'which': which, 'grid': g, 'vert': v, 'times': times, 'samples': samples}
+        yield 'xr_state_ambiguous', {'case': 'name_clash', 'grid': small_grid(), 'vert': _g_vert(rng, K=2),
+                                     'group': _pick(rng, ['tracers', 'diagnostics']), 'name': _pick(rng, ['vorticity', 'divergence'])}
+        for nm in (['lon', 'level', 'time'] if quick else ['lon', 'lat', 'level', 'surface', 'time', 'sample', 'longitudinal_mode', 'total_wavenumber']):
+            g = small_grid(); v = _g_vert(rng, K=int(rng.integers(2, 6)))
+            ln, la, _, _ = _g_grid_dims(g)
+            times, samples = _g_lead(rng, _g_vert_layers(v), ln, la, mode=_pick(rng, ['', 'T', 'ST']))
+            yield 'xr_state_ambiguous', {'case': 'tracer_named_like_coord', 'name': nm, 'grid': g, 'vert': v, 'layout': _pick(rng, ['nodal', 'modal']),
+                                         'times': times, 'samples': samples, 'data_seed': int(rng.integers(0, 2 ** 31))}
+        for E in ([2, None] if quick else [1, 2, 3, None]):
+            g = small_grid(); v = _g_vert(rng, K=int(rng.integers(2, 6))); K = _g_vert_layers(v)
+            ln, la, _, _ = _g_grid_dims(g)
+            times, samples = _g_lead(rng, K, ln, la, mode=_pick(rng, ['', 'T', 'ST']))
+            Ev = K if E is None else (E if E != K else E + 1)
+            yield 'xr_state_ambiguous', {'case': 'additional_coord', 'E': Ev, 'coord': _pick(rng, ['ensemble', 'member']), 'grid': g, 'vert': v,
+                                         'layout': _pick(rng, ['nodal', 'modal']), 'times': times, 'samples': samples, 'data_seed': int(rng.integers(0, 2 ** 31))}
+        # one-layer nodal states
+        for vk in (['layer', 'sigma_eq'] if quick else ['layer', 'sigma_eq', 'pressure']):
+            g = small_grid(); ln, la, _, _ = _g_grid_dims(g)
+            times, samples = _g_lead(rng, 1, ln, la, mode=_pick(rng, ['', 'T', 'ST']))
+            yield 'xr_state_ambiguous', {'case': 'one_layer_nodal', 'grid': g, 'vert': _g_vert(rng, kind=vk, K=1), 'kind': 'sw' if vk == 'layer' else 'pe',
+                                         'layout': 'nodal', 'tracers': [], 'times': times, 'samples': samples, 'data_seed': int(rng.integers(0, 2 ** 31))}
+        # grids whose nodal and modal shapes coincide
+        for layout in ('nodal', 'modal'):
+            lw = int(rng.integers(2, 6)); tw = lw + int(rng.integers(0, 3))
+            g = {'ctor': 'raw', 'kw': {'longitude_wavenumbers': lw, 'total_wavenumbers': tw, 'longitude_nodes': 2 * lw - 1, 'latitude_nodes': tw}}
+            v = _g_vert(rng, K=int(rng.integers(2, 5)))
+            times, samples = _g_lead(rng, _g_vert_layers(v), 2 * lw - 1, tw, mode=_pick(rng, ['', 'T']))
+            yield 'xr_state_ambiguous', {'case': 'nodal_eq_modal', 'grid': g, 'vert': v, 'kind': 'generic', 'layout': layout,
+                                         'generic': [['u3', '3d'], ['sp', '2d'], ['ps', 'surf']], 'tracers': ['q'], 'times': times, 'samples': samples,
+                                         'data_seed': int(rng.integers(0, 2 ** 31))}
+
+
+# ---------------------------------------------------------------------------
 def generate(ctx):
     yield from gen_dicts(ctx)
     yield from gen_arrays(ctx)
     yield from gen_spectral(ctx)
+    yield from gen_part4(ctx)
 
 
 RUNNERS = {'dict': r_dict, 'unflatten': r_unflatten, 'replace': r_replace, 'pack': r_pack, 'stack': r_stack,
            'split': r_split, 'split_axis': r_split_axis, 'concat': r_concat, 'spectral': r_spectral}
+RUNNERS.update(RUNNERS_PART4)
